@@ -237,8 +237,33 @@ func (o obs) equal(p obs) bool {
 	return true
 }
 
+// sizeGuard stops a run whose simulated world has grown beyond anything the
+// registered players could fill (more seated players than three times the
+// field, more live tables than players, a waiting queue several times the
+// field). This only happens after the
+// regulator has handed the same players out again and again; every violation
+// recorded so far is kept, nothing further can be learnt from the run, and
+// without the stop the sweeps of settle() double the world each time.
+func (r *run) sizeGuard() {
+	if r.dead {
+		return
+	}
+	seated, live := 0, 0
+	for _, id := range r.order {
+		if t := r.tables[id]; !t.broken {
+			live++
+			seated += len(t.members)
+		}
+	}
+	if seated > 3*len(r.alive)+60 || live > len(r.alive)+8 || len(r.queue()) > 3*len(r.alive)+60 {
+		r.res.Count("guard.world-outgrew-the-field", 1)
+		r.dead = true
+	}
+}
+
 // account: every alive player is in exactly one place; counters agree (C09)
 func (r *run) account() {
+	r.sizeGuard()
 	if r.dead || !r.on("C09") {
 		return
 	}
